@@ -39,12 +39,15 @@ ASSUMPTIONS = [
     'not themselves renamed (keys that name no block are allowed and ignored)',
     'contract: minc only where none of the matrix block names it will create exists (the documented "Duplicate MINC '
     'matrix block name" error leaves a half-edited grid by design)',
-    'contract: a + b only when every block name present in both is unconnected in a and every rock type name present in both is unused in a (same reason as add_block / add_rocktype: "the value from b is used" says nothing about a\'s dependants); '
+    'contract: a + b only when every block name present in both is unconnected in a (same reason as add_block); a rock type '
+    'name registered in both grids and in use in a is allowed ("the value from b is used"): from such a sum or embed on, '
+    'blocks may hold a rock type object other than the registered one of the same name, and only the name-based clause of '
+    'the statement is judged in the states descended from it (the extra object-identity clause is skipped there); '
     'embed per its own guards (no common block names; otherwise, and for a host that is too small, it returns None)',
     'check(fix=True): which of several equally frequent neighbour rock types is chosen, and the order in which several '
     'isolated blocks are fixed, are not asserted',
     'distances and gravity cosine of a reversed connection are not compared here (property C09)',
-    'rock type registration is by name (the statement says "one registered in the grid")',
+    'rock type registration is judged by name (the statement says "one registered in the grid"); additionally by object identity except in states descended from a sum with a common rock type name in use',
     'trusted: ref/gridmodel.py written from doc/source/t2grids.rst',
 ]
 BOUNDS = {
@@ -98,11 +101,15 @@ def con_payload(n1, n2):
 
 
 class State(object):
-    def __init__(self, seed, grid, model, uni, hist=()):
+    def __init__(self, seed, grid, model, uni, hist=(), alias=False):
         self.seed, self.grid, self.model, self.uni, self.hist = seed, grid, model, uni, list(hist)
+        # alias: the state descends from a sum / embed of two grids that both register a rock type name in
+        # use in the left one; blocks may then hold a rock type object other than the registered one of the
+        # same name, and only the statement's name-based clause is judged
+        self.alias = alias
 
     def __deepcopy__(self, memo):
-        return State(self.seed, copy.deepcopy(self.grid, memo), self.model.copy(), self.uni, self.hist)
+        return State(self.seed, copy.deepcopy(self.grid, memo), self.model.copy(), self.uni, self.hist, self.alias)
 
 
 # ------------------------------------------------------------------------------------------------
@@ -123,11 +130,13 @@ def abstract(grid):
 
 def canon(state):
     g = state.grid
-    return (abstract(g), sorted(g.block), sorted(g.connection), sorted(g.rocktype))
+    held = [g.rocktype.get(b.rocktype.name) is b.rocktype for b in g.blocklist]    # future renames depend on it
+    return (abstract(g), sorted(g.block), sorted(g.connection), sorted(g.rocktype), held, state.alias)
 
 
-def invariant(grid):
-    """First failed clause of the statement as (clause, detail), or None."""
+def invariant(grid, identity=True):
+    """First failed clause of the statement as (clause, detail), or None.  identity=False leaves out the
+    extra demand that a block's rock type is the very object registered under its name."""
     for kind, lst, dct in (('rocktype', grid.rocktypelist, grid.rocktype), ('block', grid.blocklist, grid.block),
                            ('connection', grid.connectionlist, grid.connection)):
         ids_l = [id(o) for o in lst]
@@ -162,7 +171,7 @@ def invariant(grid):
         if b.rocktype is None or b.rocktype.name not in grid.rocktype:
             return 'block-rocktype-registered', 'block %r has rock type %r, registered are %r' % (
                 b.name, getattr(b.rocktype, 'name', None), sorted(grid.rocktype))
-    for b in grid.blocklist:
+    for b in (grid.blocklist if identity else ()):
         if grid.rocktype[b.rocktype.name] is not b.rocktype:
             return ('block-rocktype-is-registered-object', 'block %r has a rock type object named %r which is not the '
                     'object registered under that name' % (b.name, b.rocktype.name))
@@ -257,6 +266,12 @@ def partner(which):
         both_add_rock(g, m, 'rockQ')
         both_add_block(g, m, P, 'rockP')
         both_add_block(g, m, Q, 'rockQ')
+        both_add_con(g, m, P, Q)
+    elif which == 'P3':     # disjoint block names; registers rock1 (used by none of its own blocks) and rock2
+        both_add_rock(g, m, 'rock1')
+        both_add_rock(g, m, 'rock2')
+        both_add_block(g, m, P, 'rock2')
+        both_add_block(g, m, Q, 'rock2')
         both_add_con(g, m, P, Q)
     else:                   # P2: shares the block name '  d 1' (connected in the partner) and rock type rock1
         both_add_rock(g, m, 'rock1')
@@ -468,9 +483,12 @@ def ops_of(state, depth, reduced=False):
     # order
     for n in upres:
         ops.append(['demote_block', [n]])
-    if not reduced:
-        for n1, n2 in itertools.permutations(upres, 2):
-            ops.append(['demote_block', [n1, n2]])
+    for n1, n2 in itertools.permutations(upres, 2):
+        ops.append(['demote_block', [n1, n2]])
+    for n in upres:                                   # a name listed more than once: a repeated demotion
+        ops.append(['demote_block', [n, n]])
+    for n1, n2 in itertools.permutations(upres, 2):
+        ops.append(['demote_block', [n1, n2, n1]])
     if present:
         for p in block_perms(present, reduced):
             ops.append(['reorder', p, None])
@@ -499,13 +517,13 @@ def ops_of(state, depth, reduced=False):
                 if minc_enabled(m, fr, s):
                     ops.append(['minc', fr, s])
     # + and embed
-    for which in ('P1', 'P2'):
+    for which in ('P1', 'P2', 'P3'):
         pg, pm = PARTNER_MODELS[which]
-        if all(not m.cons_of(n) for n in pm.blocks if n in present) and \
-                all(not m.rock_in_use(r) for r in pm.rocks if r in m.rocks):
+        if all(not m.cons_of(n) for n in pm.blocks if n in present):
             ops.append(['plus', which])
     for host in upres:
         ops.append(['embed', 'P1', host])
+        ops.append(['embed', 'P3', host])
     return ops
 
 
@@ -537,6 +555,7 @@ def ops_reduced(state):
         ops.append(['delete_connection', c[0], c[1]])
     if upres:
         ops.append(['demote_block', [upres[0]]])
+        ops.append(['demote_block', [upres[-1], upres[0], upres[-1]]])
     if len(present) > 1:
         ops.append(['reorder', present[::-1], None])
     if m.conns:
@@ -559,12 +578,12 @@ def ops_reduced(state):
     for s in [[n] for n in upres[:1]]:
         if minc_enabled(m, MINC_FRACTIONS[1], s):
             ops.append(['minc', MINC_FRACTIONS[1], s])
-    pg, pm = PARTNER_MODELS['P1']
-    if all(not m.cons_of(n) for n in pm.blocks if n in present) and \
-            all(not m.rock_in_use(r) for r in pm.rocks if r in m.rocks):
-        ops.append(['plus', 'P1'])
+    for which in ('P1', 'P3'):
+        pg, pm = PARTNER_MODELS[which]
+        if all(not m.cons_of(n) for n in pm.blocks if n in present):
+            ops.append(['plus', which])
     for host in upres[:1]:
-        ops.append(['embed', 'P1', host])
+        ops.append(['embed', 'P3', host])
     return ops
 
 
@@ -575,6 +594,11 @@ class _Lazy(dict):
 
 
 PARTNER_MODELS = _Lazy()
+
+
+def common_rock_in_use(model, which):
+    """The partner registers a rock type name that blocks of the grid use."""
+    return any(r in model.rocks and model.rock_in_use(r) for r in PARTNER_MODELS[which][1].rocks)
 
 
 def op_class(state, op):
@@ -610,16 +634,18 @@ def op_class(state, op):
         return 'documented-error' if (op[1] not in m.rocks or op[2] in m.rocks) else (
             'in-use' if m.rock_in_use(op[1]) else 'unused')
     if k == 'demote_block':
-        return '%d-names' % len(op[1])
+        return '%d-names%s' % (len(op[1]), '-repeated' if len(set(op[1])) < len(op[1]) else '')
     if k == 'minc':
         return '%d-levels-%s' % (len(op[1]), 'all' if op[2] is None else 'selection')
     if k == 'plus':
-        return 'partner-' + op[1] + ('-overlap' if set(PARTNER_MODELS[op[1]][1].blocks) & set(m.blocks) else '')
+        return 'partner-' + op[1] + ('-overlap' if set(PARTNER_MODELS[op[1]][1].blocks) & set(m.blocks) else '') + \
+            ('-common-rocktype-in-use' if common_rock_in_use(m, op[1]) else '')
     if k == 'embed':
         sub = PARTNER_MODELS[op[1]][1]
         if set(sub.blocks) & set(m.blocks):
             return 'refused-common-names'
-        return 'fits' if sum(sub.binfo[b]['volume'] for b in sub.blocks) < m.binfo[op[2]]['volume'] else 'refused-host-too-small'
+        return ('fits' if sum(sub.binfo[b]['volume'] for b in sub.blocks) < m.binfo[op[2]]['volume'] else 'refused-host-too-small') + \
+            ('-common-rocktype-in-use' if common_rock_in_use(m, op[1]) else '')
     return 'any'
 
 
@@ -791,6 +817,9 @@ def step2(state, op, notes=None):
         return 'C08|%s|%s|%s' % (site, clause, cls)
     err = None
     result, operands = None, []
+    was_alias = state.alias
+    if op[0] in ('plus', 'embed') and common_rock_in_use(state.model, op[1]):
+        state.alias = True
     with quiet():
         try:
             result, operands = apply_impl(state, op)
@@ -809,11 +838,11 @@ def step2(state, op, notes=None):
             return [(sig('raises:' + type(err).__name__), '%r raised %r' % (op, err))], []
     side = []
     for role, g, m in operands:
-        bad = invariant(g) or refinement(g, m)
+        bad = invariant(g, identity=not (was_alias and role in ('left', 'host-grid'))) or refinement(g, m)
         if bad:
             side.append((sig('operand-' + role + ':' + bad[0]), 'the %s operand of %r is left changed or inconsistent: %s'
                          % (role, op, bad[1])))
-    bad = invariant(state.grid) or refinement(state.grid, state.model)
+    bad = invariant(state.grid, identity=not state.alias) or refinement(state.grid, state.model)
     if bad:
         return [(sig(bad[0]), '%s (after %r)' % (bad[1], op))], side
     return [(sig(c), '%s (after %r)' % (w, op)) for c, w in extra[:1]], side
